@@ -1,0 +1,44 @@
+//go:build verif
+
+// Machine-checked contracts for the TCP bridge frontend (read by /verif/bin/gvc; comment-only, adds no declarations).
+package main
+
+// C16 (safety core of a liveness property), frontend side: a copy direction that has ended closes the connection it
+// was writing to, so the far peer observes end-of-stream and the other direction is unblocked; both connections are
+// released on every exit path of the per-connection goroutine.
+//@ func main$1$1 props(C16)
+//@   requires conn != nil && backendConn != nil
+//@   ghost copies int = 0
+//@   ghost closedDst int = 0
+//@   call io.Copy
+//@     assert[C16:copy-tcp-client-bytes-into-the-bridge] copies == 0 && arg0 == backendConn && arg1 == conn
+//@     do copies = copies + 1
+//@   call (net.Conn).Close
+//@     assert[C16:bridge-closed-only-after-the-client-direction-ended] copies == 1 && arg0 == backendConn
+//@     do closedDst = closedDst + 1
+//@   ensures[C16:bridge-closed-when-the-tcp-client-direction-ends] closedDst >= 1
+//@ func main$1$2 props(C16)
+//@   requires conn != nil && backendConn != nil
+//@   ghost copies int = 0
+//@   ghost closedDst int = 0
+//@   call io.Copy
+//@     assert[C16:copy-bridge-bytes-to-the-tcp-client] copies == 0 && arg0 == conn && arg1 == backendConn
+//@     do copies = copies + 1
+//@   call (net.Conn).Close
+//@     assert[C16:tcp-client-closed-only-after-the-bridge-direction-ended] copies == 1 && arg0 == conn
+//@     do closedDst = closedDst + 1
+//@   ensures[C16:tcp-client-connection-closed-when-the-bridge-direction-ends] closedDst >= 1
+//@ func main$1 props(C16)
+//@   requires conn != nil && backendURL != nil
+//@   ghost be ref = nil
+//@   ghost dialOK bool = false
+//@   ghost connClosed int = 0
+//@   ghost beClosed int = 0
+//@   call connection.DialWebsocket
+//@     do be = ret0
+//@     do dialOK = ret1 == nil
+//@   call (net.Conn).Close
+//@     assert[C16:only-this-pairs-connections-are-closed] arg0 == conn || (dialOK && arg0 == be)
+//@     do connClosed = connClosed + ite(arg0 == conn, 1, 0)
+//@     do beClosed = beClosed + ite(arg0 == be, 1, 0)
+//@   ensures[C16:both-connections-released-on-every-exit-path] connClosed >= 1 && (dialOK ==> beClosed >= 1)
